@@ -611,6 +611,15 @@ func (fc *fileCtx) stmt(s ast.Stmt) (pre []ast.Stmt, repl ast.Stmt, post []ast.S
 		if c, ok := s.X.(*ast.CallExpr); ok && isWaitCall(c) {
 			site := fc.site(s.Pos(), "wait")
 			fun := c.Fun.(*ast.SelectorExpr)
+			if tv, ok := fc.info.Types[fun.X]; ok && isWaitGroup(tv.Type) && *level >= 2 {
+				// per-object happens-before for WaitGroups (level 2)
+				recv := fc.expr(fun.X)
+				if _, isPtr := tv.Type.(*types.Pointer); !isPtr {
+					recv = &ast.UnaryExpr{Op: token.AND, X: recv}
+				}
+				s.X = fc.rt("WgWaitOn", site, recv)
+				return
+			}
 			fun.X = fc.expr(fun.X)
 			s.X = fc.rt("Wait0", site, fun)
 			return
@@ -1194,8 +1203,11 @@ func (fc *fileCtx) l2Expr(e ast.Expr, write bool) ast.Expr {
 		// wg.Done() and cancel() carry happens-before edges the scheduler hooks do not see
 		if se, ok := e.Fun.(*ast.SelectorExpr); ok && se.Sel.Name == "Done" && len(e.Args) == 0 {
 			if tv, ok := fc.info.Types[se.X]; ok && isWaitGroup(tv.Type) {
-				se.X = fc.l2Expr(se.X, false)
-				return fc.rt("WgDone", se)
+				recv := fc.l2Expr(se.X, false)
+				if _, isPtr := tv.Type.(*types.Pointer); !isPtr {
+					recv = &ast.UnaryExpr{Op: token.AND, X: recv}
+				}
+				return fc.rt("WgDoneOn", recv)
 			}
 		}
 		if tv, ok := fc.info.Types[e.Fun]; ok && len(e.Args) == 0 && isCancelFunc(tv.Type) {
